@@ -30,10 +30,30 @@ func buildPlan(id string, pinned map[string]string, tier string) *Plan {
 		p.NotCovered = []string{"SetBytes / SetBigInt / BigInt / Text / SetString / JSON (math/big, strconv): not under contract", "Vector ReadFrom / AsyncReadFrom / WriteTo / MarshalBinary: not under contract"}
 		p.Note = "Canonical byte decoders accept exactly encodings below q; encoders and decoders are mutually inverse (lemma functions verified from the two contracts); integer setters produce the residue mod q; comparisons act on the regular value."
 		return p
+	case "C06":
+		p := &Plan{ID: id}
+		for _, t := range towers {
+			p.Units = append(p.Units, Unit{Pkg: "./" + t.Rel, Tags: "portable", Groups: []string{"tower"}})
+			p.Units = append(p.Units, Unit{Pkg: "./" + t.Rel, Tags: "", Groups: []string{"tower"}})
+		}
+		p.Trusted = []string{
+			"ring layer: a method of an abstract element type is interpreted by the ring operation that its own contract states one layer below (fp.Element: C01 contracts; E2: contracts at layer 'ring fp.Element'; E6: at layer 'ring E2')",
+			"Z-lifting: a polynomial identity with integer coefficients proved over the integers holds in every commutative ring (only this direction is used)",
+			"documented defining polynomials of the towers (BETA, XI in gcv/gen_tower.go)"}
+		p.NotCovered = []string{"Inverse / BatchInvert / Div / Sqrt / Legendre / Exp of the tower types (conditional field obligations: not yet emitted)",
+			"Frobenius maps, cyclotomic and compressed squarings, torus compression, Expt/ExpGLV chains: not under contract",
+			"towers of bls24-315, bls24-317, bw6-633, bw6-761 and the small-field extensions: not under contract",
+			"assembly E2 kernels on amd64 (e2_amd64.s): outside (C09)"}
+		p.Note = "Every tower operation under contract equals the product/sum computed by schoolbook convolution in R[X]/(X^k - nr) from the documented polynomials; sparse products equal the generic product applied to the operand with the documented zero/one coordinates; all alias partitions, including (where the contract says 'option interior') operands pointing into the receiver."
+		return p
 	case "C19":
 		p := &Plan{ID: id}
 		for _, pk := range fps {
 			p.Units = append(p.Units, Unit{Pkg: pk, Tags: "purego", Groups: []string{"field", "conv"}, MultiPartOnly: true})
+		}
+		for _, t := range towers {
+			p.Units = append(p.Units, Unit{Pkg: "./" + t.Rel, Tags: "portable", Groups: []string{"tower"}, MultiPartOnly: true})
+			p.Units = append(p.Units, Unit{Pkg: "./" + t.Rel, Tags: "", Groups: []string{"tower"}, MultiPartOnly: true})
 		}
 		p.Note = "Every function with two or more pointer operands of the same type is verified once per set partition of those operands (exact points-to per partition); postconditions are over old() values and the frame clause forbids writes to non-destination operands."
 		return p
